@@ -347,6 +347,11 @@ func (e *Engine) identical(a, b Value) bool {
 	return false
 }
 
+// diffConst: both terms are constants and differ.
+func diffConst(a, b *Term) bool {
+	return a.IsConst() && b.IsConst() && a != b
+}
+
 // mergeValues returns ite(c, a, b).
 func (e *Engine) mergeValues(c *Term, a, b Value) Value {
 	if c.IsTrue() {
@@ -365,6 +370,9 @@ func (e *Engine) mergeValues(c *Term, a, b Value) Value {
 		}
 	case *StrV:
 		if y, ok := b.(*StrV); ok {
+			if diffConst(x.len, y.len) || diffConst(x.off, y.off) {
+				e.mergeLoss = true // concrete lengths would become symbolic
+			}
 			mx := x.max
 			if y.max < 0 || (mx >= 0 && y.max > mx) {
 				mx = y.max
@@ -377,6 +385,9 @@ func (e *Engine) mergeValues(c *Term, a, b Value) Value {
 		}
 	case *SliceV:
 		if y, ok := b.(*SliceV); ok && x.obj == y.obj && x.obj != nil {
+			if diffConst(x.len, y.len) || diffConst(x.off, y.off) {
+				e.mergeLoss = true
+			}
 			mx := x.max
 			if y.max < 0 || (mx >= 0 && y.max > mx) {
 				mx = y.max
@@ -408,6 +419,7 @@ func (e *Engine) mergeValues(c *Term, a, b Value) Value {
 			return &CellsV{f}
 		}
 		if y, ok := b.(*CellsV); ok {
+			e.mergeLoss = true
 			// different lengths: pad the shorter with the longer's cells (unreachable there)
 			n := len(x.c)
 			if len(y.c) > n {
